@@ -258,6 +258,7 @@ def case_kernel_meaning(case):
 
     kname, widths = case[:2]
     post = case[2] if len(case) > 2 else None  # an operation fused behind the kernel op in the same body
+    wiring = case[3] if len(case) > 3 else None  # which block argument feeds which kernel operand (None: in order)
     KCLS = {"mul": kernel.MulOp, "add": kernel.AddOp, "mac": kernel.MacOp, "qmac": kernel.QMacOp}
 
     def expanded():
@@ -265,7 +266,7 @@ def case_kernel_meaning(case):
 
         tys = [IntegerType(w) for w in widths]
         b = Block(arg_types=tys)
-        k = KCLS[kname](operands=list(b.args[:-1]), result_types=[tys[-1]])
+        k = KCLS[kname](operands=[b.args[i] for i in wiring] if wiring else list(b.args[:-1]), result_types=[tys[-1]])
         if post is None:
             b.add_ops([k, linalg.YieldOp(k)])
         else:
@@ -291,7 +292,7 @@ def case_kernel_meaning(case):
         return a[4] + (ext(a[0]) - a[2]) * (ext(a[1]) - a[3])
 
     def full(a):
-        r = ref(a)
+        r = ref([a[i] for i in wiring] + [a[-1]] if wiring else a)
         if post == "muli_self":
             return r * r
         if post == "addi_self":
@@ -311,9 +312,10 @@ def case_kernel_meaning(case):
         args = [z3.BitVec(f"x{i}", w) for i, w in enumerate(widths)]
         got = eval_body(g.body.block, args, KH)
         E = eng()
-        if post is None:
+        if post is None and wiring is None:
             E.oblige("expansion:no_kernel_left", z3.BoolVal(not [o for o in g.body.block.ops if o.name.startswith("kernel.")]))
-        E.oblige(f"expansion:computes_kernel_meaning|kernel={kname}" + ("|fused_body" if post else ""), got == full(args), dict(expanded=body_text(g.body.block), fused=post))
+        E.oblige(f"expansion:computes_kernel_meaning|kernel={kname}" + ("|fused_body" if post else "") + ("|operands_not_the_block_arguments_in_order" if wiring else ""),
+                 got == full(args), dict(expanded=body_text(g.body.block), fused=post, wiring=wiring))
 
     def replay(f):
         g = expanded()
@@ -748,6 +750,10 @@ def run(chk):
     # kernel op with an operation fused behind it in the same body (the body is not just the kernel)
     kcases += [(k, (w, w, w), p) for k in ("mul", "add", "mac") for w in (8, 32) for p in ("muli_self", "addi_self", "subi_acc")]
     kcases += [("qmac", (8, 8, 32, 32, 32), p) for p in ("muli_self", "subi_acc")] + [("mac", (8, 8, 32), "muli_self")]
+    # kernel ops whose operands are not the block arguments in order (the same one twice, swapped, the accumulator as a factor)
+    for w in (8, 32):
+        kcases += [(k, (w, w, w), None, wr) for k in ("mul", "add", "mac") for wr in ((0, 0), (1, 0), (1, 1), (2, 0))]
+    kcases += [("qmac", (8, 8, 32, 32, 32), None, wr) for wr in ((0, 1, 3, 2), (1, 0, 2, 3), (0, 0, 2, 2))]
     if only in (None, "meaning"):
         chk.add_results("kernel_expansion_vs_meaning", pmap(case_kernel_meaning, kcases))
     if only in (None, "rescale"):
